@@ -276,9 +276,15 @@ def c15_sequence(rec, rng, kind, start, length, case):
                 pairs = [(c, it) for c, it in zip(chs, its)]
                 if bad_at is not None and bad_at > 0:
                     pairs[bad_at] = (pairs[0][0], pairs[bad_at][1])  # duplicate channel inside the list
-                steps.append(f"platforms={[c for c, _ in pairs]}{' (dup)' if bad_at else ''}")
+                # the documented argument is any iterable of (channel, platform) pairs: list, tuple, zip, generator
+                form = rng.choice(["list", "list", "tuple", "zip", "generator", "iter", "map"])
+                arg = {"list": lambda: list(pairs), "tuple": lambda: tuple(pairs),
+                       "zip": lambda: zip([c for c, _ in pairs], [p_ for _, p_ in pairs]),
+                       "generator": lambda: ((c, p_) for c, p_ in pairs), "iter": lambda: iter(pairs),
+                       "map": lambda: map(lambda cp: (cp[0], cp[1]), pairs)}[form]()
+                steps.append(f"platforms=<{form}>{[c for c, _ in pairs]}{' (dup)' if bad_at else ''}")
                 try:
-                    blk.platforms = pairs
+                    blk.platforms = arg
                 except Exception as e:
                     err = e
                 ch, items, oerr = observed_pairs(kind, blk)
@@ -301,8 +307,11 @@ def c15_sequence(rec, rng, kind, start, length, case):
                     steps.append(f"platforms=<{k} items + a non-platform>")
                 else:
                     steps.append(f"platforms=<{k} items>")
+                form = rng.choice(["list", "list", "tuple", "generator", "iter"])
+                steps[-1] += f" as {form}"
                 try:
-                    blk.platforms = its
+                    blk.platforms = {"list": lambda: its, "tuple": lambda: tuple(its), "generator": lambda: (x for x in its),
+                                     "iter": lambda: iter(its)}[form]()
                 except Exception as e:
                     err = e
                 its = [x for x in its if isinstance(x, tdfForcePlatformsData.ForcePlatformData)]
